@@ -200,7 +200,7 @@ func TestVerifRpcAuth(t *testing.T) {
 	ops := []string{"call:none", "call:apponly", "call:tokenonly", "call:empty", "call:t1", "call:t2", "store:t1", "store:t2", "store:none", "down", "up", "t0", "t60", "t360"}
 	depth := 4
 	if vrt.Thorough() {
-		depth = 6
+		depth = 8
 	}
 	for i, strict := range []bool{true, false} {
 		if !vrt.Shard(i) {
